@@ -89,6 +89,20 @@ def build_sendsync(outdir):
     raise ToolError("cargo build of sendsync failed:\n" + r.stdout[-3000:])
 
 
+def build_primgen81():
+    """primgen built with the repository's pinned toolchain (same source): libm results differ between toolchains (cbrt), and the
+    executions of /repo's own tests - which cargo builds with the pinned toolchain - are validated against its table."""
+    if "primgen81" in _built:
+        return _built["primgen81"]
+    d = os.path.join(ROOT, "primgen81")
+    r = subprocess.run(["cargo", "build", "--offline", "-q"], cwd=d, env=dict(os.environ, CARGO_NET_OFFLINE="true"),
+                       stdout=subprocess.PIPE, stderr=subprocess.STDOUT, text=True)
+    if r.returncode != 0:
+        raise ToolError("cargo build of primgen81 failed:\n" + r.stdout[-3000:])
+    _built["primgen81"] = os.path.join(d, "target", "debug", "primgen81")
+    return _built["primgen81"]
+
+
 def primgen_path():
     return os.path.join(RUST, "target", "debug", "primgen")
 
@@ -308,6 +322,10 @@ def validate_jobs(tag, jobs, outdir, gen, n, timeout=900, parallel=8, missing_pr
         text = open(trace + ".tlc.log", errors="replace").read()
         if rc == 124:
             raise ToolError(f"[{tag}] trace validation timed out ({trace})")
+        inconclusive = text.count('"INCONCLUSIVE"')
+        if inconclusive:
+            DIAGNOSTICS["trace_events_inconclusive"] = DIAGNOSTICS.get("trace_events_inconclusive", 0) + inconclusive
+            log(f"[{tag}] {inconclusive} event(s) inconclusive: more than one documented outcome, or a function the specification does not know")
         drift = text.count('"MESSAGE-DRIFT"')
         if drift:
             DIAGNOSTICS["message_texts_differing_from_Messages.tla"] = DIAGNOSTICS.get("message_texts_differing_from_Messages.tla", 0) + drift
@@ -429,9 +447,9 @@ def record_repo_tests(tag, outdir):
     stats = json.loads(c.stdout.strip().splitlines()[-1])
     info.update(stats)
     prims = trace + ".prims.json"
-    g = subprocess.run([primgen_path(), req, prims], stdout=subprocess.PIPE, stderr=subprocess.STDOUT, text=True)
+    g = subprocess.run([build_primgen81(), req, prims], stdout=subprocess.PIPE, stderr=subprocess.STDOUT, text=True)
     if g.returncode != 0:
-        raise ToolError(f"[{tag}] primgen failed: {g.stdout[-2000:]}")
+        raise ToolError(f"[{tag}] primgen81 failed: {g.stdout[-2000:]}")
     os.remove(raw)
     info["events"] = stats["builds"] + 2 * stats["evals"]
     info["record_s"] = round(time.time() - t0, 1)
